@@ -20,6 +20,8 @@ pub fn run_check(prop: &str, _args: &[String]) -> i32 {
         "C14" => crate::c14::c14(),
         "C09" => crate::c09::c09(),
         "C12" => growth_check(),
+        "C19" => crate::c19::c19(),
+        "C20" => crate::c20::c20(),
         _ => {
             eprintln!("unknown property {}", prop);
             2
@@ -254,6 +256,26 @@ fn seq_family(prop: &str) -> i32 {
                 }
             }
         }
+    }
+    // wide guest space: an L1 table of several flush blocks, written in every order
+    {
+        let gw = crate::extra::g9_wide(130);
+        let img = images::lib_formatted(gw.cluster_bits, gw.order, gw.vsize());
+        let (cs, tb) = (gw.cs(), gw.tb());
+        let w = |off: u64, len: u64, tag: u32| Op::Write { off, len: len as usize, tag };
+        let alpha = vec![w(0, cs, 1), w(64 * tb, cs, 2), w(129 * tb + cs, cs, 3), w(65 * tb - cs, 2 * cs, 4), Op::Discard { off: 64 * tb, len: cs }, Op::Flush, Op::Reopen];
+        qcow2_rs::verif::set_order_salt(0);
+        let mut sc = SeqScenario::new(img.clone(), gw.cfg_small(), gw.cfg_alt(), "small", alpha, oracles.clone());
+        sc.full_sweep = false;
+        let lim = BfsLimits { depth: if thorough { 5 } else { 3 }, max_states: 3_000_000, deadline: deadline_in(if thorough { 200 } else { 8 }) };
+        let st = bfs(&sc, &lim, &mut viol);
+        states += st.states;
+        trans += st.transitions;
+        outcomes += st.distinct_outcomes;
+        if st.capped || st.depth_completed < st.depth_target {
+            all_complete = false;
+        }
+        scen.push(stats_json(&format!("{} (130 L2 tables) salt0", crate::hist::Scenario::name(&sc)), &st));
     }
     // fragmented host space: multi-cluster allocations that cross refblock slices and must retry
     {
